@@ -26,7 +26,7 @@ var typeREQ = map[string][]string{
 
 func init() {
 	register(&Rule{
-		ID: "C19.kind-contradiction", Prop: "C19", Also: []string{"C11", "C08"}, Floor: 40, Controls: 1,
+		ID: "C19.kind-contradiction", Prop: "C19", Also: []string{"C11", "C08", "C13", "C14"}, Floor: 40, Controls: 1,
 		Doc: "belief rule: where a function itself tests the kind of a type and then calls a kind-specific accessor of that type (ElementType, AttributeTypes, TupleElementTypes, ...), the kinds its own guards leave possible at the call all lie in the accessor's domain — e.g. after 'list or tuple' a collection-only accessor is a contradiction (it panics for the tuple the guard admitted)",
 		Run: runKindContradiction,
 	})
